@@ -1,5 +1,6 @@
 import PbVerif.Lemmas.WktJsonDuration
 import PbVerif.Lemmas.WktJsonTimestamp
+import PbVerif.Lemmas.WktJsonTsGrammar
 import PbVerif.Lemmas.WktJsonFieldMask
 import PbVerif.Lemmas.WktJsonStruct
 /-!
@@ -351,6 +352,200 @@ theorem fmtTimestamp_frac_digits (secs nanos : Int) (t : Str) (h : fmtTimestamp 
   rw [fmtTimestamp_text secs nanos hv] at h
   injection h with h
   exact ⟨_, _, _, _, _, _, _, h.symm, fracText_shape _⟩
+
+/-! ## Timestamp: the parser against the grammar -/
+
+/-- EXACT characterisation, for ALL strings: `unmarshalTimestamp` accepts `s` with result `v` iff `s` is a
+literal of the grammar `TsParts` with fields in range (one- or two-digit hour, '.' with at most nine digits or
+',' with any number of digits, offset up to 24:60), `v` is the instant it denotes, and the instant lies in
+0001-01-01T00:00:00Z .. 9999-12-31T23:59:59Z. -/
+theorem unmarshalTimestamp_iff (s : Str) (v : Int × Int) :
+    unmarshalTimestamp s = some v ↔
+      ∃ p : TsParts, p.Accepted ∧ p.render = s ∧ p.value = v ∧
+        minTimestampSeconds ≤ v.1 ∧ v.1 ≤ maxTimestampSeconds := by
+  unfold unmarshalTimestamp
+  constructor
+  · intro h
+    cases hp : parseTime s with
+    | none => simp [hp] at h
+    | some w =>
+      obtain ⟨secs, ns⟩ := w
+      simp only [hp, Option.bind_some] at h
+      split at h
+      · cases h
+      · next hr =>
+        split at h
+        · cases h
+        · next htm =>
+          injection h with h
+          subst h
+          obtain ⟨p, hf, hrn, hv1, hv2⟩ := parseTime_some hp
+          have hh1 := hf.2.2.2.2.2.2.1
+          have hfr := hf.2.2.2.2.2.2.2.2.2.1
+          refine ⟨p, ⟨hf, ?_⟩, hrn, ?_, by simp only; omega, by simp only; omega⟩
+          · intro ds hds
+            apply Classical.byContradiction
+            intro hlen
+            have := (tooManyFracDigits_render p hh1 hfr).mpr ⟨ds, hds, by omega⟩
+            rw [hrn] at this
+            exact htm this
+          · unfold TsParts.value at hv1 ⊢
+            simp only at hv1
+            rw [hv1, hv2]
+  · rintro ⟨p, ⟨hf, hlen⟩, hr, hv, h1, h2⟩
+    have hh1 := hf.2.2.2.2.2.2.1
+    have hfr := hf.2.2.2.2.2.2.2.2.2.1
+    have hp := parseTime_render p hf
+    rw [hr] at hp
+    rw [hp]
+    simp only [Option.bind_some]
+    have hv1 : p.value.1 = v.1 := by rw [hv]
+    rw [if_neg (by omega)]
+    have htm : tooManyFracDigits s = false := by
+      cases hb : tooManyFracDigits s with
+      | false => rfl
+      | true =>
+        rw [← hr] at hb
+        obtain ⟨ds, hds, hl⟩ := (tooManyFracDigits_render p hh1 hfr).mp hb
+        have := hlen ds hds
+        omega
+    rw [htm]
+    simp only [Bool.false_eq_true, if_false, Option.some.injEq]
+    rw [← hv]
+    rfl
+
+/-- Whatever `unmarshalTimestamp` accepts is a valid Timestamp: instants outside years 1–9999 are rejected
+(also when only the offset moves them out), nanos are within 0..999,999,999. -/
+theorem unmarshalTimestamp_valid (s : Str) (secs nanos : Int) (h : unmarshalTimestamp s = some (secs, nanos)) :
+    TimestampValid secs nanos := by
+  obtain ⟨p, ⟨hf, _⟩, _, hv, h1, h2⟩ := (unmarshalTimestamp_iff s (secs, nanos)).mp h
+  have hfr := hf.2.2.2.2.2.2.2.2.2.1
+  have hn : nanos = (tsNanos p.frac : Int) := by
+    have := congrArg Prod.snd hv
+    simpa [TsParts.value] using this.symm
+  have hlt : tsNanos p.frac < 1000000000 := by
+    cases hfrac : p.frac with
+    | none => simp [tsNanos]
+    | some fv =>
+      obtain ⟨comma, ds⟩ := fv
+      obtain ⟨hall, _⟩ := hfr comma ds hfrac
+      simp only [tsNanos, nanosOfFrac]
+      have htake : allDigits (ds.take 9) := fun c hc => hall c (List.mem_of_mem_take hc)
+      have hlen : (ds.take 9).length ≤ 9 := by simp [List.length_take]; omega
+      have h1 := natOfDigits_lt htake
+      have hpow : 10 ^ (ds.take 9).length * 10 ^ (9 - (ds.take 9).length) = 1000000000 := by
+        rw [← Nat.pow_add]
+        have : (ds.take 9).length + (9 - (ds.take 9).length) = 9 := by omega
+        rw [this]
+      have hpos : 0 < 10 ^ (9 - (ds.take 9).length) := Nat.pow_pos (by omega)
+      calc natOfDigits (ds.take 9) * 10 ^ (9 - (ds.take 9).length)
+          < 10 ^ (ds.take 9).length * 10 ^ (9 - (ds.take 9).length) := Nat.mul_lt_mul_of_lt_of_le h1 (Nat.le_refl _) hpos
+        _ = 1000000000 := hpow
+  unfold TimestampValid
+  simp only [secondsInNanos]
+  simp only at h1 h2
+  omega
+
+/- FULL STATEMENT (false of the current code, see `unmarshalTimestamp_not_rfc3339`):
+
+theorem unmarshalTimestamp_rfc3339 (s : Str) (v : Int × Int) :
+    unmarshalTimestamp s = some v ↔
+      ∃ p : TsParts, p.Rfc3339 ∧ p.render = s ∧ p.value = v ∧
+        minTimestampSeconds ≤ v.1 ∧ v.1 ≤ maxTimestampSeconds
+-/
+
+/-- the ← half holds: every RFC 3339 literal (two-digit fields, '.', at most nine fraction digits, offset
+00:00..23:59, `Z`) within years 1–9999 is accepted with the instant it denotes -/
+theorem rfc3339_accepted (p : TsParts) (h : p.Rfc3339)
+    (h1 : minTimestampSeconds ≤ p.value.1) (h2 : p.value.1 ≤ maxTimestampSeconds) :
+    unmarshalTimestamp p.render = some p.value := by
+  refine (unmarshalTimestamp_iff p.render p.value).mpr ⟨p, ⟨h.1, ?_⟩, rfl, rfl, h1, h2⟩
+  intro ds hds
+  exact (h.2.2.1 false ds hds).2
+
+/-- the → half holds up to exactly three classes of strings (finding 9 and the one-digit hour): whatever is
+accepted is an RFC 3339 literal, or has a one-digit hour, or a ',' before the fraction, or an offset with
+hour 24 / minute 60 -/
+theorem unmarshalTimestamp_rfc3339_partial (s : Str) (v : Int × Int) (h : unmarshalTimestamp s = some v) :
+    ∃ p : TsParts, p.Accepted ∧ p.render = s ∧ p.value = v ∧
+      (p.Rfc3339 ∨ p.hour1 = true ∨ (∃ ds, p.frac = some (true, ds)) ∨
+        (∃ neg hh mm, p.zone = some (neg, hh, mm) ∧ (hh = 24 ∨ mm = 60))) := by
+  obtain ⟨p, hacc, hr, hv, _, _⟩ := (unmarshalTimestamp_iff s v).mp h
+  refine ⟨p, hacc, hr, hv, ?_⟩
+  by_cases c1 : p.hour1 = true
+  · exact Or.inr (Or.inl c1)
+  by_cases c2 : ∃ ds, p.frac = some (true, ds)
+  · exact Or.inr (Or.inr (Or.inl c2))
+  by_cases c3 : ∃ neg hh mm, p.zone = some (neg, hh, mm) ∧ (hh = 24 ∨ mm = 60)
+  · exact Or.inr (Or.inr (Or.inr c3))
+  left
+  refine ⟨hacc.1, by simpa using c1, ?_, ?_⟩
+  · intro comma ds hds
+    cases comma with
+    | true => exact absurd ⟨ds, hds⟩ c2
+    | false => exact ⟨rfl, hacc.2 ds hds⟩
+  · intro neg hh mm hz
+    have hb := hacc.1.2.2.2.2.2.2.2.2.2.2 neg hh mm hz
+    have : ¬ (hh = 24 ∨ mm = 60) := fun hx => c3 ⟨neg, hh, mm, hz, hx⟩
+    omega
+
+/-- an RFC 3339 literal contains no ',' -/
+theorem rfc3339_no_comma (p : TsParts) (h : p.Rfc3339) : ',' ∉ p.render := by
+  obtain ⟨hf, h1, hfr, _⟩ := h
+  intro hc
+  have hd : ∀ w n, ',' ∈ padDigits w n → False := by
+    intro w n hm
+    have := allDigits_padDigits w n ',' hm
+    revert this; decide
+  simp only [TsParts.render, TsParts.hourChars, h1, Bool.false_eq_true, if_false, List.mem_append, List.mem_cons] at hc
+  rcases hc with hc | hc | hc | hc | hc | hc | hc | hc | hc | hc | hc | hc | hc
+  · exact hd _ _ hc
+  · revert hc; decide
+  · exact hd _ _ hc
+  · revert hc; decide
+  · exact hd _ _ hc
+  · revert hc; decide
+  · exact hd _ _ hc
+  · revert hc; decide
+  · exact hd _ _ hc
+  · revert hc; decide
+  · exact hd _ _ hc
+  · cases hfrac : p.frac with
+    | none => rw [hfrac] at hc; cases hc
+    | some fv =>
+      obtain ⟨comma, ds⟩ := fv
+      have hcm := (hfr comma ds hfrac).1
+      subst hcm
+      rw [hfrac] at hc
+      simp only [tsFracChars, Bool.false_eq_true, if_false, List.mem_cons] at hc
+      rcases hc with hc | hc
+      · revert hc; decide
+      · have := (hf.2.2.2.2.2.2.2.2.2.1 false ds hfrac).1 ',' hc
+        revert this; decide
+  · cases hz : p.zone with
+    | none => rw [hz] at hc; revert hc; decide
+    | some zv =>
+      obtain ⟨neg, hh, mm⟩ := zv
+      rw [hz] at hc
+      simp only [tsZoneChars, List.mem_cons, List.mem_append] at hc
+      rcases hc with hc | hc | hc | hc
+      · cases neg <;> (revert hc; decide)
+      · exact hd _ _ hc
+      · revert hc; decide
+      · exact hd _ _ hc
+
+/-- NEGATION of `unmarshalTimestamp_rfc3339` on a concrete witness (finding 9): a string with ',' is accepted
+although no RFC 3339 literal contains one -/
+theorem unmarshalTimestamp_not_rfc3339 :
+    ¬ (∀ (s : Str) (v : Int × Int), unmarshalTimestamp s = some v → ∃ p : TsParts, p.Rfc3339 ∧ p.render = s) := by
+  intro h
+  obtain ⟨p, hp, hr⟩ := h "2000-01-01T00:00:00,1234567891Z".toList (946684800, 123456789) (by decide)
+  have := rfc3339_no_comma p hp
+  rw [hr] at this
+  exact this (by decide)
+
+example : (⟨2000, 2, 29, 23, 59, 59, false, some (false, "123".toList), some (true, 23, 59)⟩ : TsParts).render =
+    "2000-02-29T23:59:59.123-23:59".toList := by decide
 
 /-! ## Timestamp: what the parser accepts beyond RFC 3339 (finding 9 and the one-digit hour) -/
 
